@@ -7,8 +7,11 @@ import (
 	"verif/internal/ev"
 )
 
+// monExtra: additional explorations of a monitor check (other parameters, smaller menu), run before the main ones.
+var monExtra = map[string]func(c *ev.Ctx, want []string) string{}
+
 func registerMonCheck(id, name string, want []string, envf func(tier string) []EnvCfg, menu func() []BlockSpec, depth [2]int, rule string, assume []string) {
-	register(&Check{ID: id, QuickBud: 110 * time.Second, ThorBud: 30 * time.Minute,
+	register(&Check{ID: id, QuickBud: 150 * time.Second, ThorBud: 30 * time.Minute,
 		Run: func(c *ev.Ctx) {
 			d := depth[0]
 			if c.Tier == "thorough" {
@@ -19,6 +22,9 @@ func registerMonCheck(id, name string, want []string, envf func(tier string) []E
 				c.Assume(a)
 			}
 			done := ""
+			if x := monExtra[id]; x != nil {
+				done += x(c, want)
+			}
 			for i, env := range envf(c.Tier) {
 				cfg := &chainCfg{Name: fmt.Sprintf("%s-env%d", name, i), Env: env, Menu: menu(), Depth: d, Want: want}
 				st := chainExplore(c, cfg)
@@ -69,6 +75,22 @@ func init() {
 		"Shadow lifecycle automaton per node and application: a node leaves the staked state only at the last block of a session and only after an accepted begin-unstake request (or a forced unstake of a jailed node); an application only after its own request; an unstaking record persists until the first block whose time reaches its completion time, in which it disappears and its output address (node) / own address (application) gains exactly the stake; never paid twice.",
 		[]string{"payout amounts are compared exactly when the payout address neither signs nor receives a send in the payout block (the menu keeps node output addresses passive)"})
 
+	// chain start shifted so that the signed-blocks window boundary (height 80010, where the signing record of every
+	// listed validator is reset; the window cannot be shorter than 10) is the third explored block, right after the
+	// blocks in which a node was just jailed and is still listed as a signer (two-block update delay)
+	monExtra["C25"] = func(c *ev.Ctx, want []string) string {
+		e := defaultEnv()
+		e.MaxValidators = 3
+		e.BaseHeight = 80006
+		menu := []BlockSpec{{Absent: []string{"N1"}}, {Absent: []string{"N1", "N2"}}, {}, {TimeJump: 2}, blk(tx("node_unjail", "N1", "node", "N1", "as", "N1")), blk(tx("node_unjail", "N2", "node", "N2", "as", "N2"))}
+		d := 4
+		if c.Tier == "thorough" {
+			d = 6
+		}
+		cfg := &chainCfg{Name: "slashing-window-boundary", Env: e, Menu: menu, Depth: d, Want: want}
+		st := chainExplore(c, cfg)
+		return chainDone(c, cfg, st)
+	}
 	registerMonCheck("C25", "slashing", []string{"mon:slashing", "valset", "nodepool", "supply"},
 		func(tier string) []EnvCfg {
 			e := defaultEnv()
